@@ -22,7 +22,7 @@ CLAIMED = {
  "C08": ("4 (C08)", "Every single deviate statement (thorough: pairs, in written order) of every kind naming every property, on six kinds of target, with and without the ignore option, is compared with a reference application of RFC 7950 7.20.3 whose pre-state comes from the run without the deviating module; every untargeted node must be identical in both runs; the listed unappliable cases must be reported; deviations may be written in a submodule of the deviating module; sequences of deviation statements (a deviation after the removal of its target) follow a sequential reference.", ""),
  "C11": ("4 (C11)", "Identities with symbolic names (every equality pattern) placed in a module, its submodule and an importing module, with bases spelled with and without prefixes (own, import, unknown): the Values of every identity must be exactly the transitive closure (Warshall over symbolic edge terms) once each, undefined bases and cycles must be reported, the identityref leaf must point at the named identity.", "order determinism of Values under map iteration is C05's subject"),
  "C12": ("4 (C12)", "ReadOnly, Namespace and InstantiatingModule of every node of every schema of the composition universe are compared with values computed from the source structure alone (nearest explicit config, rpc output, module whose text placed the node).", ""),
- "C17": ("4 (C17)", "On every schema of the composition universe and on the composite schema: for every (start, target) pair the absolute prefixed path (prefix taken from the start's defining module) and the relative path with .. steps must return the very node (pointer identity); every absolute path with one step replaced by a non-existent name - an unrelated one and the two near misses with a symbolic letter before/after the real name - must return nil.", ""),
+ "C17": ("4 (C17)", "On every schema of the composition universe and on the composite schema: for every (start, target) pair the absolute prefixed path (prefix taken from the start's defining module) and the relative path with .. steps must return the very node (pointer identity); every absolute path with one step replaced by a non-existent name - an unrelated one and the two near misses with a symbolic letter before/after the real name - must return nil, also when a .. step follows the non-existent one.", ""),
  "C09": ("4 (C09)", "A reference lexical binder decides, as terms over symbolic typedef names at seven definition sites, which typedef a reference at five sites in four spellings must bind to; the resolved kind must be that site's, unresolvable references must be errors. A second harness checks units/default nearest-wins, pattern accumulation per leaf and nearest length over all 2^16 presence patterns of a three-level chain; a third all cycles/unknowns over three typedefs, a fourth the members of unions (written order, structurally identical members once).", ""),
  "C13": ("4 (C13)", "Revision binding for every triple of module headers with 0..2 revisions in every load order (bare name, name@rev, import with/without revision-date); the file chooser findInDir/findFile over a directory model with files drawn from 11 candidate names; include == inline for every partition of eight definitions into module and two submodules (direct and nested include).", "ioutil.ReadDir is a harness directory model on the engine side; one known finding (mixed revisioned/unrevisioned name) is reported as KNOWN-FINDING"),
  "C18": ("4 (C18)", "Every sequence of 4 (thorough 5) operations over nine texts (three good, two with processing errors, four rejected in different ways) and process: after every process the error list and dump must equal the batch run of the accepted texts on a fresh set inside the same path.", "known traces of history are reported as KNOWN-FINDING"),
